@@ -62,6 +62,7 @@ func c13(c *core.Check) {
 				return
 			}
 			c13count(agg, r, fd, f)
+			c13shortcut(agg, r, fd, f)
 			c13writeFrame(agg, r, fd, f)
 			c13propagation(agg, r, fd)
 		case "StructLikeReadField":
@@ -83,8 +84,9 @@ func c13(c *core.Check) {
 		"M3-zero-only-required": "the zero-value arm exists only for required fields",
 		"M4-propagation":        "child structs receive the sub-mask bound by the innermost enclosing query",
 		"M4-mask-before-write":  "a child that is handed a sub-mask receives it on every path to its Write",
+		"M1-all-shortcut-consistent": "under the All() short cut of the header no element is dropped",
 	})
-	for _, k := range []string{"M1-count-loop", "M1-loop-bound", "M2-write-filter", "M2-read-filter", "M3-zero-only-required", "M4-propagation", "M4-mask-before-write"} {
+	for _, k := range []string{"M1-count-loop", "M1-loop-bound", "M2-write-filter", "M2-read-filter", "M3-zero-only-required", "M4-propagation", "M4-mask-before-write", "M1-all-shortcut-consistent"} {
 		c.Min(k, 1)
 	}
 	c13keyKinds(c)
@@ -229,6 +231,71 @@ func maskQuery(e ast.Expr) (recv, method string, ok bool) {
 }
 
 // c13count: M1.
+// c13shortcut: when the header of a container is written with len(target) because the mask says All(), the element loop
+// must write every element in that case: each `continue` that drops an element has to be conditional on !<mask>.All().
+func c13shortcut(agg *aggregate, r *rendered, fd *ast.FuncDecl, f fieldInfo) {
+	k := r.U.key()
+	ast.Inspect(fd.Body, func(n ast.Node) bool {
+		is, ok := n.(*ast.IfStmt)
+		if !ok || is.Else == nil {
+			return true
+		}
+		cond := strings.ReplaceAll(rules.ExprText(is.Cond), " ", "")
+		if !strings.HasPrefix(cond, "!") || !strings.HasSuffix(cond, ".All()") {
+			return true
+		}
+		mask := strings.TrimSuffix(strings.TrimPrefix(cond, "!"), ".All()")
+		// the else branch writes a header with len(X)
+		target := ""
+		ast.Inspect(is.Else, func(m ast.Node) bool {
+			if call, ok := m.(*ast.CallExpr); ok && strings.HasSuffix(rules.ExprText(call.Fun), "Begin") && len(call.Args) >= 2 {
+				last := strings.ReplaceAll(rules.ExprText(call.Args[len(call.Args)-1]), " ", "")
+				if strings.HasPrefix(last, "len(") {
+					target = strings.TrimSuffix(strings.TrimPrefix(last, "len("), ")")
+				}
+			}
+			return true
+		})
+		if target == "" {
+			return true
+		}
+		// the loop over the same target that writes the elements (not the counting loop inside the then-branch)
+		ast.Inspect(fd.Body, func(m ast.Node) bool {
+			rs, ok := m.(*ast.RangeStmt)
+			if !ok || strings.ReplaceAll(rules.ExprText(rs.X), " ", "") != target || (is.Body.Pos() <= rs.Pos() && rs.End() <= is.Body.End()) {
+				return true
+			}
+			agg.check("M1-all-shortcut-consistent", k)
+			ast.Inspect(rs.Body, func(x ast.Node) bool {
+				inner, ok := x.(*ast.IfStmt)
+				if !ok {
+					return true
+				}
+				drops := false
+				for _, st := range inner.Body.List {
+					if b, ok := st.(*ast.BranchStmt); ok && b.Tok == token.CONTINUE {
+						drops = true
+					}
+				}
+				initText := ""
+				if as, ok := inner.Init.(*ast.AssignStmt); ok && len(as.Rhs) == 1 {
+					initText = rules.ExprText(as.Rhs[0])
+				}
+				if !drops || !strings.Contains(initText, mask+".") {
+					return true
+				}
+				ic := strings.ReplaceAll(rules.ExprText(inner.Cond), " ", "")
+				if !strings.Contains(ic, "!"+mask+".All()") {
+					agg.fail("M1-all-shortcut-consistent", k, fmt.Sprintf("under [%s] shape %s: when %s.All() holds the header is written with len(%s), but the element loop still drops an element whenever the query `%s` fails (condition `%s`): a required container under a black-list mask that covers it completely is announced with n elements and written with none — the encoding is malformed", r.R.Valuation, f.Shape, mask, target, initText, rules.ExprText(inner.Cond)))
+				}
+				return true
+			})
+			return true
+		})
+		return true
+	})
+}
+
 func c13count(agg *aggregate, r *rendered, fd *ast.FuncDecl, f fieldInfo) {
 	k := r.U.key()
 	// every counting for-loop: loop-bound invariance
